@@ -62,6 +62,7 @@ def _labels(npu_op_list, npu_op_to_cmd):
                            read_shapes=[[int(x) for x in rs] if rs is not None else None for rs in po.read_shapes],
                            write_offset=[int(x) for x in po.write_offset] if po.write_offset is not None else None,
                            write_shape=[int(x) for x in po.write_shape] if po.write_shape is not None else None,
+                           ofm_stride_multiplier=[int(x) for x in getattr(po, "ofm_stride_multiplier", [1, 1, 1])],
                            ofm_full_shape=[int(x) for x in ps.ofm_shapes[0]] if ps.ofm_shapes else None, ifm_full_shape=[int(x) for x in ps.ifm_shapes[0]] if ps.ifm_shapes else None,
                            padding=getattr(po.attrs.get("padding"), "name", None),
                            lut_eq=([str(t.equivalence_id) for t in po.inputs if t is not None and t.purpose.name == "LUT"] or [None])[0],
